@@ -190,9 +190,13 @@ def bypassed_by_bound(prog, r, given=()):
     byp = set()
     for n in prog["nodes"]:
         co = set(n["outputs"]) & consumed
-        # all consumed outputs are injected, at least one of them by a BINDING (the rest by the caller's values)
+        # all consumed outputs are injected, at least one of them by a BINDING (the rest by the caller's values) ...
         if co and co <= (bound | set(given)) and co & bound:
-            byp.add(n["name"])
+            # ... that is not the seed of the node's own cycle (a bound seed bootstraps the cycle, it bypasses nothing)
+            members = cycle_members(prog, n["name"])
+            in_cycle = {p for m in prog["nodes"] if m["name"] in members for p in m["inputs"]} if (len(members) > 1 or set(n["inputs"]) & set(n["outputs"])) else set()
+            if (co & bound) - in_cycle:
+                byp.add(n["name"])
     users = {n["name"] for n in prog["nodes"] if r in n["inputs"]}
     return bool(users) and users <= byp
 
